@@ -50,6 +50,17 @@ for n in (3, 4):
                     viol["remove_null_cols"].append({"K": Ksym.tolist(), "used_returned": [int(x) for x in out[-1]], "used_expected": used.tolist()})
             except Exception as e:
                 viol["remove_null_cols"].append({"K": Ksym.tolist(), "raised": "%s: %s" % (type(e).__name__, e)})
+            # a non-symmetric operator with the same non-null columns (solve is also handed k0 + kA): the system solved is K x = f, not a symmetrised one
+            Kns = Ksym + 0.3*(np.triu(Ksym, 1) - np.triu(Ksym, 1).T)
+            if len(used) and abs(np.linalg.det(Kns[np.ix_(used, used)])) > 1e-3:
+                f2 = rs.uniform(-1, 1, size=n)
+                try:
+                    x2 = S.solve(csr_matrix(Kns), f2.copy(), silent=True)
+                    want2 = np.zeros(n); want2[used] = np.linalg.solve(Kns[np.ix_(used, used)], f2[used])
+                    if not np.allclose(x2, want2, rtol=1e-9, atol=1e-11):
+                        viol["solve"].append({"K": Kns.tolist(), "f": f2.tolist(), "got": x2.tolist(), "want": want2.tolist(), "note": "non-symmetric operator"})
+                except Exception as e:
+                    viol["solve"].append({"K": Kns.tolist(), "raised": "%s: %s" % (type(e).__name__, e)})
             if len(used) and abs(np.linalg.det(Ksym[np.ix_(used, used)])) > 1e-3:
                 f = rs.uniform(-1, 1, size=n)
                 try:
